@@ -276,6 +276,7 @@ def drive(exe, lines, args=(), workdir=False, timeout_per_case=20.0, env=None):
     out = []
     i = 0
     wd = None
+    nfaults = 0
     if workdir:
         os.makedirs(os.path.join(BUILD, "work"), exist_ok=True)
         wd = tempfile.mkdtemp(dir=os.path.join(BUILD, "work"))
@@ -291,7 +292,7 @@ def drive(exe, lines, args=(), workdir=False, timeout_per_case=20.0, env=None):
                 if got and got[-1] == "":
                     got.pop()
                 crashed = r.returncode != 0
-                stderr = r.stderr
+                stderr = "TIMEOUT" if r.returncode == -14 else r.stderr
             except subprocess.TimeoutExpired as e:
                 got = (e.stdout or b"")
                 got = got.decode(errors="replace") if isinstance(got, bytes) else got
@@ -310,6 +311,12 @@ def drive(exe, lines, args=(), workdir=False, timeout_per_case=20.0, env=None):
                 else:
                     out.append("fault hang" if stderr == "TIMEOUT" else classify_crash(stderr))
                 i += 1
+                if stderr == "TIMEOUT":
+                    nfaults += 1
+                if nfaults >= 6:
+                    # several hangs: the run already has its failing inputs; do not spend minutes on more
+                    out.extend(["fault skipped-after-6-hangs"] * (len(lines) - i))
+                    i = len(lines)
         return out
     finally:
         if wd:
